@@ -483,6 +483,16 @@ impl Reader {
     for writer in lost_writers {
       self.remove_writer_proxy(writer);
     }
+    // The SPDP reader must also forget what the lost participant has announced.
+    // SPDP announcements are re-sent under the same sequence number (RTPS spec
+    // section 8.5.3.3, e.g. FastDDS does so), and the receive cache discards a
+    // sequence number it already has: a participant that was silent for longer
+    // than its lease and then comes back would never be discovered again.
+    if self.my_guid.entity_id == EntityId::SPDP_BUILTIN_PARTICIPANT_READER {
+      self
+        .acquire_the_topic_cache_guard()
+        .forget_participant(guid_prefix);
+    }
   }
 
   pub fn contains_writer(&self, entity_id: EntityId) -> bool {
